@@ -21,6 +21,8 @@ use crate::mock::{Action, MockCluster, MockColumn, MockConfig, MockKeyspace, Moc
 
 const SELECT: &str = "SELECT a, b FROM ks.t WHERE a = ?";
 const INSERT: &str = "INSERT INTO ks.t (a) VALUES (?)";
+/// a second, different statement for batches (two statements a node can have forgotten independently)
+const INSERT2: &str = "INSERT INTO ks.t (a) VALUES (?) IF NOT EXISTS";
 const CHANGED: &str = "#changed";
 const PORT: u16 = 19414;
 const NODES: usize = 2;
@@ -34,6 +36,8 @@ enum Step {
     Evict(usize),
     Alter,
     AlterEvict,
+    /// schema version += 1, every node forgets everything, column b is RENAMED (same number of columns)
+    RenameEvict,
     IdChange(usize),
     Exec(usize, i32),
     ExecPaged(usize, i32),
@@ -77,6 +81,7 @@ fn parse_history(v: &Value) -> Result<History, String> {
             (Some("evict"), None) => Step::Evict(node(s)?),
             (Some("alter"), None) => Step::Alter,
             (Some("alter_evict"), None) => Step::AlterEvict,
+            (Some("rename_evict"), None) => Step::RenameEvict,
             (Some("idchange"), None) => Step::IdChange(node(s)?),
             (None, Some("exec")) => Step::Exec(node(s)?, pk(s)?),
             (None, Some("exec_paged")) => Step::ExecPaged(node(s)?, pk(s)?),
@@ -138,6 +143,9 @@ fn mock_config(h: &History) -> MockConfig {
 
 struct Model {
     ver: u8,
+    /// number of extra int columns c2.. (an ALTER ADD each) and the version at which column b was last renamed (0: "b")
+    extra: u8,
+    bgen: u8,
     ext: [bool; NODES],
     prepared: [HashSet<Vec<u8>>; NODES],
     salt: [u8; NODES],
@@ -151,21 +159,22 @@ fn mid(ver: u8) -> Vec<u8> {
     vec![0xC1, ver]
 }
 
-fn columns(ver: u8) -> Vec<(String, Vec<u8>)> {
+fn columns(extra: u8, bgen: u8) -> Vec<(String, Vec<u8>)> {
     let int = type_bytes("int").expect("type int");
     let text = type_bytes("text").expect("type text");
-    let mut c = vec![("a".to_string(), int.clone()), ("b".to_string(), text)];
-    for i in 2..=ver as u32 {
+    let bname = if bgen == 0 { "b".to_string() } else { format!("b{bgen}") };
+    let mut c = vec![("a".to_string(), int.clone()), (bname, text)];
+    for i in 2..=(extra as u32 + 1) {
         c.push((format!("c{i}"), int.clone()));
     }
     c
 }
 
-fn model_rows(ver: u8, k: i32) -> Vec<Vec<Option<Vec<u8>>>> {
+fn model_rows(ver: u8, extra: u8, k: i32) -> Vec<Vec<Option<Vec<u8>>>> {
     (0..2i32)
         .map(|r| {
             let mut row = vec![Some(k.wrapping_mul(10).wrapping_add(r).to_be_bytes().to_vec()), Some(format!("b{ver}").into_bytes())];
-            for i in 2..=ver as i32 {
+            for i in 2..=(extra as i32 + 1) {
                 row.push(Some((100 * ver as i32 + i).to_be_bytes().to_vec()));
             }
             row
@@ -183,6 +192,8 @@ fn stmt_of_id(id: &[u8]) -> &'static str {
         "select"
     } else if id == &id_for(INSERT, 0)[..] || id == &id_for(INSERT, 1)[..] {
         "insert"
+    } else if id == &id_for(INSERT2, 0)[..] || id == &id_for(INSERT2, 1)[..] {
+        "insert2"
     } else {
         "?"
     }
@@ -232,15 +243,26 @@ impl Answer {
 
 impl Model {
     fn new(ext: [bool; NODES]) -> Model {
-        Model { ver: 1, ext, prepared: [HashSet::new(), HashSet::new()], salt: [0; NODES], frames: vec![], other_frames: 0 }
+        Model { ver: 1, extra: 0, bgen: 0, ext, prepared: [HashSet::new(), HashSet::new()], salt: [0; NODES], frames: vec![], other_frames: 0 }
     }
 
     fn apply_event(&mut self, st: &Step) {
         match st {
             Step::Evict(n) => self.prepared[*n].clear(),
-            Step::Alter => self.ver += 1,
+            Step::Alter => {
+                self.ver += 1;
+                self.extra += 1;
+            }
+            Step::RenameEvict => {
+                self.ver += 1;
+                self.bgen = self.ver;
+                for p in self.prepared.iter_mut() {
+                    p.clear();
+                }
+            }
             Step::AlterEvict => {
                 self.ver += 1;
+                self.extra += 1;
                 for p in self.prepared.iter_mut() {
                     p.clear();
                 }
@@ -256,13 +278,13 @@ impl Model {
     fn prepare(&mut self, n: usize, text: &str) -> Answer {
         let is_select = match text {
             SELECT => true,
-            INSERT => false,
+            INSERT | INSERT2 => false,
             other => return Answer::plain(invalid(format!("c14 model cannot prepare {other:?}")), "error"),
         };
         let id = id_for(text, self.salt[n]);
         self.prepared[n].insert(id.clone());
         let rmid = if self.ext[n] { Some(mid(self.ver)) } else { None };
-        let result_cols = if is_select { columns(self.ver) } else { vec![] };
+        let result_cols = if is_select { columns(self.extra, self.bgen) } else { vec![] };
         let ncols = result_cols.len();
         let int = type_bytes("int").expect("type int");
         Answer {
@@ -282,7 +304,7 @@ impl Model {
             return Answer::unprepared(id);
         }
         match stmt_of_id(id) {
-            "insert" => return Answer::plain(Reply::Void, "void"),
+            "insert" | "insert2" => return Answer::plain(Reply::Void, "void"),
             "select" => {}
             _ => return Answer::plain(invalid("c14 model: id of an unknown statement".into()), "error"),
         }
@@ -290,7 +312,7 @@ impl Model {
             Some(Some(b)) if b.len() == 4 => i32::from_be_bytes([b[0], b[1], b[2], b[3]]),
             _ => return Answer::plain(invalid("c14 model: the bound pk is not a 4-byte int".into()), "error"),
         };
-        let all = model_rows(self.ver, k);
+        let all = model_rows(self.ver, self.extra, k);
         // Paged iff the request carries a page size (execute_iter does, execute_unpaged does not).
         let (rows, next) = if req.page_size.is_some() {
             match req.paging_state.as_deref() {
@@ -317,7 +339,7 @@ impl Model {
         } else {
             ("rows_meta", false, None)
         };
-        let cols = columns(self.ver);
+        let cols = columns(self.extra, self.bgen);
         let ncols = if no_metadata { 0 } else { cols.len() };
         Answer {
             reply: Reply::Rows { cols, ks: "ks".into(), table: "t".into(), rows, paging_state: next, no_metadata, new_metadata_id: new_id.clone() },
@@ -352,6 +374,7 @@ impl Model {
                 let stmt = match text.as_str() {
                     SELECT => "select",
                     INSERT => "insert",
+                    INSERT2 => "insert2",
                     _ => "?",
                 };
                 (self.prepare(n, &text), stmt, json!([]), vec![])
@@ -549,6 +572,15 @@ async fn run_with_mock(h: &History, mock: &MockCluster, model: &Arc<Mutex<Model>
             return o;
         }
     };
+    let prepared_insert2 = match session.prepare(INSERT2).await {
+        Ok(p) => p,
+        Err(e) => {
+            drop(session);
+            let mut o = fail(format!("setup prepare insert2: {e}"));
+            o["setup"] = Value::Array(take_frames(0));
+            return o;
+        }
+    };
     prepared.set_use_cached_result_metadata(h.skip);
     let setup = take_frames(0);
 
@@ -557,7 +589,7 @@ async fn run_with_mock(h: &History, mock: &MockCluster, model: &Arc<Mutex<Model>
         let from = nframes();
         let ver = model.lock().unwrap().ver;
         let result: Value = match st {
-            Step::Evict(_) | Step::Alter | Step::AlterEvict | Step::IdChange(_) => {
+            Step::Evict(_) | Step::Alter | Step::AlterEvict | Step::RenameEvict | Step::IdChange(_) => {
                 model.lock().unwrap().apply_event(st);
                 json!("none")
             }
@@ -626,7 +658,7 @@ async fn run_with_mock(h: &History, mock: &MockCluster, model: &Arc<Mutex<Model>
             Step::Batch(n, k) => {
                 let mut b = Batch::default();
                 b.append_statement(prepared_insert.clone());
-                b.append_statement(prepared_insert.clone());
+                b.append_statement(prepared_insert2.clone());
                 b.set_load_balancing_policy(Some(forced(*n)));
                 match session.batch(&b, ((*k,), (k.wrapping_add(1),))).await {
                     Ok(_) => json!({"ok": 1}),
